@@ -354,9 +354,61 @@ func (sr *srcRenderer) stmt(s any, ind string) string {
 	panic("unknown statement " + canon(m))
 }
 
-// unsup is filled in by the C12 family (constructs outside the supported subset).
+// unsup renders a construct outside the supported subset (spec/CoSource.tla, Desugar gives its meaning).
 func (sr *srcRenderer) unsup(m J, ind string) string {
-	panic("unsup not rendered here: " + canon(m))
+	id := num(m["id"])
+	Y := func(v string) string { return sr.yield(v) }
+	var t string
+	switch str(m["u"]) {
+	case "lbreak":
+		t = fmt.Sprintf("L:\n\tfor r.T(%d) {\n\t\tfor r.T(%d) {\n\t\t\t%s\n\t\t\tbreak L\n\t\t}\n\t}\n", id, id+1, Y("a"))
+	case "lcont":
+		t = fmt.Sprintf("L:\n\tfor r.T(%d) {\n\t\tfor r.T(%d) {\n\t\t\t%s\n\t\t\tcontinue L\n\t\t}\n\t\tr.E(%d, a, b)\n\t}\n", id, id+1, Y("a"), id+2)
+	case "goto":
+		t = fmt.Sprintf("if r.T(%d) {\n\tgoto L\n}\n%s\nL:\n\tr.E(%d, a, b)\n", id, Y("a"), id+1)
+	case "select":
+		t = fmt.Sprintf("select {\ncase v := <-rt.Ch(7):\n\t%s\n}\n", Y("v"))
+	case "defer":
+		t = fmt.Sprintf("defer r.E(%d, a, b)\n", id)
+	case "fallyield":
+		t = fmt.Sprintf("switch r.T(%d) {\ncase true:\n\t%s\n\tfallthrough\ndefault:\n\t%s\n}\n", id, Y("a"), Y("b"))
+	case "ifinit":
+		t = fmt.Sprintf("if %s; r.T(%d) {\n\tr.E(%d, a, b)\n}\n", Y("a"), id, id+1)
+	case "rparr":
+		t = fmt.Sprintf("for k, v := range &uarr {\n\tr.E(%d, k, v)\n\t%s\n\tuarr[2] = 99\n}\n", id, Y("v"))
+	case "rfunc":
+		t = fmt.Sprintf("for v := range rt.Seq3 {\n\t%s\n}\n", Y("v"))
+	case "rtparam":
+		t = fmt.Sprintf("for _, v := range ts {\n\t%s\n}\n", Y("v"))
+	case "clo-lbreak":
+		t = fmt.Sprintf("func() {\nL:\n\tfor r.T(%d) {\n\t\tfor r.T(%d) {\n\t\t\tr.E(%d, a, b)\n\t\t\tbreak L\n\t\t}\n\t}\n}()\n", id, id+1, id+2)
+	case "clo-goto":
+		t = fmt.Sprintf("func() {\n\tif r.T(%d) {\n\t\tgoto L\n\t}\n\tr.E(%d, a, b)\nL:\n\tr.E(%d, a, b)\n}()\n", id, id+1, id+2)
+	case "clo-select":
+		t = fmt.Sprintf("func() {\n\tselect {\n\tcase v := <-rt.Ch(7):\n\t\tr.E(%d, v, 0)\n\t}\n}()\n", id)
+	case "clo-defer":
+		t = fmt.Sprintf("func() {\n\tdefer r.E(%d, a, b)\n\tr.E(%d, a, b)\n}()\n", id, id+1)
+	case "clo-rfunc":
+		t = fmt.Sprintf("func() {\n\tfor v := range rt.Seq3 {\n\t\tr.E(%d, v, 0)\n\t}\n}()\n", id)
+	case "clo-rparr":
+		t = fmt.Sprintf("func() {\n\tfor k, v := range &uarr {\n\t\tr.E(%d, k, v)\n\t}\n}()\n", id)
+	case "clo-fall":
+		t = fmt.Sprintf("func() {\n\tswitch r.T(%d) {\n\tcase true:\n\t\tr.E(%d, a, b)\n\t\tfallthrough\n\tdefault:\n\t\tr.E(%d, a, b)\n\t}\n}()\n", id, id+1, id+2)
+	default:
+		panic("unknown unsupported construct " + canon(m))
+	}
+	return indent(t, ind)
+}
+
+// unsupKind returns the kind of the (single) unsupported construct of a program, "" if none.
+func unsupKind(prog []any) string {
+	js := canon(prog)
+	i := strings.Index(js, `"u":"`)
+	if i < 0 {
+		return ""
+	}
+	rest := js[i+5:]
+	return rest[:strings.Index(rest, `"`)]
 }
 
 // ---------------------------------------------------------------- Go's terminating-statement rule (syntax only)
@@ -500,14 +552,26 @@ func (sr *srcRenderer) genFunc(name string, prog []any, trailing string) string 
 		prolog += rangeProlog
 	}
 	prolog += optProlog(prog)
+	uk := unsupKind(prog)
+	if uk == "rparr" || uk == "clo-rparr" {
+		prolog += "\tuarr := [3]int{10, 20, 30}\n"
+	}
 	if sr.md == coMode {
 		body := sr.block(prog, "\t")
 		if trailing == "always" || !terminatingList(prog) {
 			body += "\treturn nil\n"
 		}
+		if uk == "rtparam" { // the generator is generic, ts has a type-parameter type
+			return fmt.Sprintf("func %s(r *rt.Rec, a, b int) %sIter[int] { return %sg[[]int](r, a, b, []int{10, 20, 30}) }\n\nfunc %sg[S ~[]int](r *rt.Rec, a, b int, ts S) %sIter[int] {\n%s%s}\n",
+				name, sr.api, name, name, sr.api, prolog, body)
+		}
 		return fmt.Sprintf("func %s(r *rt.Rec, a, b int) %sIter[int] {\n%s%s}\n", name, sr.api, prolog, body)
 	}
 	body := sr.block(prog, "\t\t")
+	if uk == "rtparam" {
+		return fmt.Sprintf("func %s(r *rt.Rec, a, b int) *rt.NIter { return %sg[[]int](r, a, b, []int{10, 20, 30}) }\n\nfunc %sg[S ~[]int](r *rt.Rec, a, b int, ts S) *rt.NIter {\n\treturn rt.Pull(func(yield func(int) bool) {\n%s%s\t})\n}\n",
+			name, name, name, indent(prolog, "\t"), body)
+	}
 	return fmt.Sprintf("func %s(r *rt.Rec, a, b int) *rt.NIter {\n\treturn rt.Pull(func(yield func(int) bool) {\n%s%s\t})\n}\n", name, indent(prolog, "\t"), body)
 }
 
